@@ -7,7 +7,7 @@
    (pad_trim_top_bottom: "self.shards.append(...)", guarded by
    "if orig_shards is self.shards: self.shards = self.shards.copy()").
    The contents are computed by the pure functions of Model/Canvas.v; this file adds only
-   the object structure.  Executable definitions only; [run_case] here is the one that is
+   the object structure.  Executable definitions only; [hrun_case] here is the machine that is
    extracted and compared with the implementation (contents, sizes, coords, errors, internal
    shards AND the aliasing pattern of all list objects reachable from the bound canvases). *)
 From Coq Require Import ZArith List Bool Lia.
@@ -359,7 +359,7 @@ Definition enc_ids (h : heap) (v : hvalue) : list Z :=
   | HComp c => 1 :: hid c :: enc_list (map snd (get_outer h (hid c)))
   end.
 
-Definition run_case (l : list Z) : list Z :=
+Definition hrun_case (l : list Z) : list Z :=
   match l with
   | nl :: r =>
       if nl <? 0 then [99] else
